@@ -53,11 +53,14 @@ func HarnessC20_args() {
 		var a string
 		switch k {
 		case 0:
-			a = "-f"
+			// every flag-like argument "-", "-x", "--", "-o=", "-.y" ...
+			// (too short to carry a supported extension)
+			a = "-" + ndStr(2, "set:-=.fy")
 		case 1:
 			a = "--opt=value.yaml.x"
 		case 2:
-			a = "word"
+			// every printable word of up to two bytes, the empty argument included
+			a = ndStr(2, "print")
 		case 3:
 			a = "plain.txt" // existing file, unsupported extension
 		case 4:
